@@ -3,6 +3,7 @@ package rules
 import (
 	"strings"
 
+	"golang.org/x/tools/go/packages"
 	"golang.org/x/tools/go/types/typeutil"
 
 	"go/ast"
@@ -45,6 +46,8 @@ func c08Wrap(v *c08env) {
 		}
 		var subs []subject
 		seen := map[ast.Node]bool{}
+		front := c08front(v, rsPkg)
+		c.Count("R-C08-6:interface methods in front of the breaker", len(front))
 		for _, file := range rsPkg.Syntax {
 			for _, d := range file.Decls {
 				fd, ok := d.(*ast.FuncDecl)
@@ -76,7 +79,11 @@ func c08Wrap(v *c08env) {
 							lits = append(lits, x)
 						}
 					case *ast.CallExpr:
-						if g.Callee(x) == types.Object(v.meth["AcquirePermission"]) {
+						callee := g.Callee(x)
+						if m, ok := front[callee]; ok {
+							callee = m
+						}
+						if callee == types.Object(v.meth["AcquirePermission"]) {
 							if len(lits) > 0 {
 								l := lits[len(lits)-1]
 								if !seen[l] {
@@ -122,7 +129,7 @@ func c08Wrap(v *c08env) {
 				}
 				return true
 			}
-			c08oneRecord(v, sf, sb.outer, sb.cons, isHandler, sentinel)
+			c08oneRecord(v, sf, sb.outer, sb.cons, isHandler, sentinel, front)
 		}
 	}
 	if f := fnOpt(c, c08cb, "CircuitBreaker", "Execute"); f != nil {
@@ -141,7 +148,7 @@ func c08Wrap(v *c08env) {
 		sentinel := lookupVar(c08cb, "ErrRejected")
 		if handler != nil && sentinel != nil {
 			subjects++
-			c08oneRecord(v, f, f.Body, fname(c08cb, "CircuitBreaker", "Execute"), func(o types.Object) bool { return o == handler }, sentinel)
+			c08oneRecord(v, f, f.Body, fname(c08cb, "CircuitBreaker", "Execute"), func(o types.Object) bool { return o == handler }, sentinel, nil)
 		}
 	}
 	c.RequireCount("R-C08-6", "call wrappers around the breaker", subjects, 1)
@@ -182,11 +189,17 @@ func c08via(f *flow.Func, defs c08defs, o types.Object) types.Object {
 	return o
 }
 
-func c08oneRecord(v *c08env, f *flow.Func, outer ast.Node, cons string, isHandler func(types.Object) bool, sentinel types.Object) {
+func c08oneRecord(v *c08env, f *flow.Func, outer ast.Node, cons string, isHandler func(types.Object) bool, sentinel types.Object, front map[types.Object]types.Object) {
 	c := v.c
 	body := f.Body
 	defs := c08collectDefs(f, outer)
-	via := func(o types.Object) types.Object { return c08via(f, defs, o) }
+	via := func(o types.Object) types.Object {
+		o = c08via(f, defs, o)
+		if m, ok := front[o]; ok {
+			return m // an interface in front of the breaker with the breaker as its only implementation
+		}
+		return o
+	}
 	var acqs, recs, hcalls []*ast.CallExpr
 	for _, call := range calls(body, true) {
 		switch o := via(f.Callee(call)); {
@@ -613,13 +626,78 @@ func c08Proxy(v *c08env) {
 			return true
 		})
 	}
-	// every rendering of `<pool>.circuitBreakerWrapper == nil`
+	// the wrapper field, directly or through a single-assignment local (breaker := sp.circuitBreakerWrapper)
+	pdefs := c08defs{}
+	for _, g := range bodies {
+		for o, ds := range c08collectDefs(g, g.Body) {
+			pdefs[o] = append(pdefs[o], ds...)
+		}
+	}
+	denotesCB := func(e ast.Expr) bool {
+		fv, _ := c08sel(f, pdefs.resolve(f, e))
+		return fv == cbField
+	}
+	// every rendering of `<wrapper> == nil`
 	cbNil := map[string]bool{}
 	for _, g := range bodies {
 		ast.Inspect(g.Body, func(n ast.Node) bool {
-			if e, ok := n.(ast.Expr); ok {
-				if fv, _ := c08sel(f, e); fv == cbField {
+			switch e := n.(type) {
+			case *ast.SelectorExpr:
+				if denotesCB(e) {
 					cbNil[f.NilKey(e)] = true
+				}
+			case *ast.Ident:
+				if _, isVar := c08obj(f, e).(*types.Var); isVar && denotesCB(e) {
+					cbNil[f.NilKey(e)] = true
+				}
+			}
+			return true
+		})
+	}
+	// wrappers collected in a slice and applied in a loop: S = append(S, <wrapper>) ... for _, w :=
+	// range S { h = w.Wrap(h) } — the loop must apply every element unconditionally
+	loopOver := map[ast.Expr]string{} // range expression -> rendering of the slice variable
+	loopWraps := map[*ast.CallExpr]bool{}
+	for _, g := range bodies {
+		ast.Inspect(g.Body, func(n ast.Node) bool {
+			rs, ok := n.(*ast.RangeStmt)
+			if !ok {
+				return true
+			}
+			sid, ok1 := ast.Unparen(rs.X).(*ast.Ident)
+			wid, ok2 := rs.Value.(*ast.Ident)
+			if !ok1 || !ok2 || len(breaksOut(g, rs, labelOf(g.Body, rs))) > 0 {
+				return true
+			}
+			hasContinue := false
+			ast.Inspect(rs.Body, func(y ast.Node) bool {
+				if b, ok := y.(*ast.BranchStmt); ok && b.Tok == token.CONTINUE {
+					hasContinue = true
+				}
+				return true
+			})
+			if hasContinue {
+				return true
+			}
+			for _, stmt := range rs.Body.List {
+				as, ok := stmt.(*ast.AssignStmt)
+				if !ok || len(as.Lhs) != 1 || len(as.Rhs) != 1 {
+					continue
+				}
+				call, ok := ast.Unparen(as.Rhs[0]).(*ast.CallExpr)
+				if !ok || !ifaceMethodCall(f, call, c08rs, "Wrapper", "Wrap") || len(call.Args) != 1 {
+					continue
+				}
+				sel := ast.Unparen(call.Fun).(*ast.SelectorExpr)
+				xid, ok := ast.Unparen(sel.X).(*ast.Ident)
+				if !ok || c08obj(f, xid) != f.Info.Defs[wid] {
+					continue
+				}
+				lid, ok1 := ast.Unparen(as.Lhs[0]).(*ast.Ident)
+				aid, ok2 := ast.Unparen(call.Args[0]).(*ast.Ident)
+				if ok1 && ok2 && c08obj(f, lid) == c08obj(f, aid) && isHandlerVar(c08obj(f, lid)) {
+					loopOver[rs.X] = f.Render(sid)
+					loopWraps[call] = true
 				}
 			}
 			return true
@@ -632,8 +710,7 @@ func c08Proxy(v *c08env) {
 			return false
 		}
 		sel := ast.Unparen(call.Fun).(*ast.SelectorExpr)
-		fv, _ := c08sel(f, sel.X)
-		if fv != cbField {
+		if !denotesCB(sel.X) {
 			return false
 		}
 		id, ok := ast.Unparen(call.Args[0]).(*ast.Ident)
@@ -738,11 +815,28 @@ func c08Proxy(v *c08env) {
 		},
 		OnInline: c08constParams(f),
 		OnNode: func(st *flow.State, n ast.Node) {
+			if e, ok := n.(ast.Expr); ok {
+				if sr, isLoop := loopOver[e]; isLoop && st.Is("ev:cbQueued:"+sr, flow.True) {
+					st.Set("ev:cbWrapped", flow.True) // the loop applies every queued wrapper
+				}
+			}
 			as, ok := n.(*ast.AssignStmt)
 			if !ok || len(as.Lhs) != len(as.Rhs) {
 				return
 			}
 			for i, l := range as.Lhs {
+				// S = append(S, <wrapper>)
+				if call, ok := ast.Unparen(as.Rhs[i]).(*ast.CallExpr); ok && len(call.Args) >= 2 {
+					if b, ok := f.Callee(call).(*types.Builtin); ok && b.Name() == "append" {
+						if lid, ok := ast.Unparen(l).(*ast.Ident); ok {
+							for _, a := range call.Args[1:] {
+								if denotesCB(a) {
+									st.Set("ev:cbQueued:"+f.Render(lid), flow.True)
+								}
+							}
+						}
+					}
+				}
 				id, ok := ast.Unparen(l).(*ast.Ident)
 				if !ok || !invFn[c08obj(f, id)] {
 					continue
@@ -799,14 +893,63 @@ func c08Proxy(v *c08env) {
 			}
 		}
 	}
-	c.Check(vd.bad["wrap"] == "" && vd.n["wrap"] > 0, "R-C08-7", cons+"|breaker wrapper applied when configured", at,
-		sprintf("%d states at the handler invocation: wrapper nil or applied", vd.n["wrap"]),
-		func() string {
-			if vd.bad["wrap"] != "" {
-				return vd.bad["wrap"]
-			}
-			return "the handler invocation is unreachable"
-		}(), vd.w["wrap"]...)
+	if vd.bad["wrap"] != "" {
+		// is the wrapper handed on in a way the check does not follow (stored, passed to a
+		// function, put into a literal)? then undecided, not violated
+		other := 0
+		for _, g := range bodies {
+			pm := parentMap(g.Body)
+			ast.Inspect(g.Body, func(n ast.Node) bool {
+				e, ok := n.(ast.Expr)
+				if !ok {
+					return true
+				}
+				if _, isSel := e.(*ast.SelectorExpr); !isSel {
+					if _, isID := e.(*ast.Ident); !isID {
+						return true
+					}
+				}
+				if fv, _ := c08sel(f, e); fv != cbField {
+					if id, isID := e.(*ast.Ident); !isID || !denotesCB(id) || f.Info.Defs[id] != nil {
+						return true
+					}
+				}
+				switch p := pm[e].(type) {
+				case *ast.BinaryExpr: // nil test
+				case *ast.SelectorExpr: // method call on it
+					_ = p
+				case *ast.AssignStmt: // alias definition
+					for _, l := range p.Lhs {
+						if l == e {
+							other++ // the field itself is assigned here
+						}
+					}
+				case *ast.CallExpr:
+					if b, ok := f.Callee(p).(*types.Builtin); !ok || b.Name() != "append" {
+						other++
+					}
+				default:
+					other++
+				}
+				return true
+			})
+		}
+		if other > 0 {
+			c.Undecide("R-C08-7", cons+"|breaker wrapper applied when configured", at, "the pool's circuit-breaker wrapper is handed on in a way the check does not follow (stored, passed as an argument, put into a literal)")
+			vd.bad["wrap"] = ""
+			vd.n["wrap"] = -1
+		}
+	}
+	if vd.n["wrap"] >= 0 {
+		c.Check(vd.bad["wrap"] == "" && vd.n["wrap"] > 0, "R-C08-7", cons+"|breaker wrapper applied when configured", at,
+			sprintf("%d states at the handler invocation: wrapper nil or applied", vd.n["wrap"]),
+			func() string {
+				if vd.bad["wrap"] != "" {
+					return vd.bad["wrap"]
+				}
+				return "the handler invocation is unreachable"
+			}(), vd.w["wrap"]...)
+	}
 
 	short := func(st *flow.State) flow.Val {
 		for _, t := range tests {
@@ -882,4 +1025,102 @@ func c08constParams(f *flow.Func) func(st *flow.State, ev *flow.InlineEvent) {
 			}
 		}
 	}
+}
+
+// c08front maps the methods of an interface declared in pkg "in front of" the library breaker to
+// the breaker's own methods: the interface is implemented by *CircuitBreaker and every value the
+// package stores into a field / variable / literal element of that interface type is a
+// *CircuitBreaker (so the interface call can only reach the breaker). Otherwise nothing is mapped.
+func c08front(v *c08env, pkg *packages.Package) map[types.Object]types.Object {
+	out := map[types.Object]types.Object{}
+	if pkg == nil {
+		return out
+	}
+	cbPtr := types.NewPointer(v.cbT)
+	scope := pkg.Types.Scope()
+	for _, name := range scope.Names() {
+		tn, ok := scope.Lookup(name).(*types.TypeName)
+		if !ok {
+			continue
+		}
+		iface, ok := tn.Type().Underlying().(*types.Interface)
+		if !ok || iface.NumMethods() == 0 || !types.Implements(cbPtr, iface) {
+			continue
+		}
+		it := tn.Type()
+		onlyBreaker := true
+		stores := 0
+		note := func(target types.Type, val ast.Expr) {
+			if target == nil || !types.Identical(target, it) || val == nil {
+				return
+			}
+			vt := pkg.TypesInfo.TypeOf(val)
+			if vt == nil {
+				return
+			}
+			if types.Identical(vt, it) {
+				return // copied from another holder of the same interface
+			}
+			stores++
+			if !types.Identical(vt, cbPtr) {
+				onlyBreaker = false
+			}
+		}
+		for _, file := range pkg.Syntax {
+			ast.Inspect(file, func(n ast.Node) bool {
+				switch x := n.(type) {
+				case *ast.AssignStmt:
+					if len(x.Lhs) == len(x.Rhs) {
+						for i, l := range x.Lhs {
+							note(pkg.TypesInfo.TypeOf(l), x.Rhs[i])
+						}
+					}
+				case *ast.ValueSpec:
+					for i, id := range x.Names {
+						if i < len(x.Values) && id.Name != "_" {
+							if o := pkg.TypesInfo.Defs[id]; o != nil {
+								note(o.Type(), x.Values[i])
+							}
+						}
+					}
+				case *ast.CompositeLit:
+					st, ok := pkg.TypesInfo.TypeOf(x).Underlying().(*types.Struct)
+					if !ok {
+						return true
+					}
+					for i, el := range x.Elts {
+						if kv, ok := el.(*ast.KeyValueExpr); ok {
+							if kid, ok := kv.Key.(*ast.Ident); ok {
+								if fo, ok := pkg.TypesInfo.Uses[kid].(*types.Var); ok {
+									note(fo.Type(), kv.Value)
+								}
+							}
+						} else if i < st.NumFields() {
+							note(st.Field(i).Type(), el)
+						}
+					}
+				case *ast.CallExpr:
+					// a value handed to a parameter of the interface type
+					if sig, ok := pkg.TypesInfo.TypeOf(x.Fun).(*types.Signature); ok && !sig.Variadic() {
+						for i, a := range x.Args {
+							if i < sig.Params().Len() {
+								note(sig.Params().At(i).Type(), a)
+							}
+						}
+					}
+				}
+				return true
+			})
+		}
+		if !onlyBreaker || stores == 0 {
+			continue
+		}
+		for i := 0; i < iface.NumMethods(); i++ {
+			m := iface.Method(i)
+			if o, _, _ := types.LookupFieldOrMethod(cbPtr, true, v.pkg.Types, m.Name()); o != nil {
+				out[m] = o
+			}
+		}
+	}
+	return out
 }
